@@ -29,7 +29,7 @@
    copy of the current value). *)
 From Coq Require Import List ZArith Bool Arith.
 From SC Require Import Base.Res Inst.Heap Inst.ClassTable Inst.Model Inst.Framed Inst.FrameProofs
-  Inst.Reach Inst.SepProofs Props.C01.
+  Inst.Reach Inst.SepProofs Inst.SepDnc Props.C01.
 Import ListNotations.
 Open Scope nat_scope.
 
@@ -74,14 +74,19 @@ Proof.
   destruct (H l' Hr) as [Hge|Hex]; [|exact Hex]. exfalso. apply (Nat.lt_irrefl l'). eapply Nat.lt_le_trans; eauto.
 Qed.
 
-(* C02_dnc_by_identity — proved as SepDnc.deepcopy_carries_dnc (file
-   coq/Inst/SepDnc.v):
-     forall ct, no_dnc_classes ct -> forall s l c d k r' s',
-       nth_error (heap s) l = Some (OInst c d) -> lookup_cls ct c = Some k ->
-       deepcopy ct (VRef l) s = (Ok (VRef r'), s') ->
-       exists d', nth_error (heap s') r' = Some (OInst c d') /\ Forall2 (carried k) d d'
-   (`carried k p p'`: same attribute name, and the same value when the
-   attribute is do_not_copy in k). *)
+(* do_not_copy attributes are carried into the copy by identity: the copy has the
+   same attribute names in the same order, and every attribute declared
+   do_not_copy holds the very same value (reference) as in the original *)
+Theorem C02_dnc_by_identity :
+  forall ct, no_dnc_classes ct ->
+  forall s l c d k r' s',
+    nth_error (heap s) l = Some (OInst c d) -> lookup_cls ct c = Some k ->
+    deepcopy ct (VRef l) s = (Ok (VRef r'), s') ->
+    exists d', nth_error (heap s') r' = Some (OInst c d') /\
+               Forall2 (fun p p' => fst p' = fst p /\
+                                    forall sp, lookup_attr k (fst p) = Some sp -> a_dnc sp = true -> snd p' = snd p)
+                       d d'.
+Proof. intros ct H. exact (deepcopy_carries_dnc ct H). Qed.
 
 (* non-vacuity: nested instance copied, do_not_copy list (cell 3) carried by
    identity, the caller's list (cell 4) stored by identity, everything else fresh *)
@@ -125,5 +130,6 @@ Qed.
 Print Assumptions C02_result_separated.
 Print Assumptions C02_deepcopy_separated.
 Print Assumptions C02_result_and_receiver_meet_only_in_exempt_objects.
+Print Assumptions C02_dnc_by_identity.
 Print Assumptions C02_nonvacuous.
 Print Assumptions C02_example_table_meets_the_guards.
